@@ -336,6 +336,31 @@ class CFG:
         out = fwd & back
         return out
 
+    def loop_body(self, header: Key) -> Set[Key]:
+        """Nodes executed inside the loop whose header node is `header` (entered through the
+        T edge, until control is back at the header or leaves through break/return/raise)."""
+        out: Set[Key] = set()
+        todo = [b for b in self.g.successors(header) if "T" in self.g[header][b]["kinds"]]
+        while todo:
+            n = todo.pop()
+            if n in out or n == header or n in (RETURN, RAISE):
+                continue
+            out.add(n)
+            for m in self.g.successors(n):
+                if self.g[n][m]["kinds"] - {"exc", "cancel", "raise"}:
+                    todo.append(m)
+        # keep only nodes from which the header is reachable again (the body proper)
+        rg = self.g.reverse(copy=False)
+        back: Set[Key] = set()
+        todo = list(rg.successors(header))
+        while todo:
+            n = todo.pop()
+            if n in back or n == header or n not in out:
+                continue
+            back.add(n)
+            todo.extend(rg.successors(n))
+        return out & back
+
     def suspension_between(self, a: Key, b: Key, drop: Optional[Set[str]] = frozenset({"exc", "cancel", "raise"})) -> List[Key]:
         return sorted((n for n in self.between(a, b, set(drop) if drop else None) if n in self.suspends), key=str)
 
